@@ -551,6 +551,50 @@ class T_sve:
         return None
 
 
+SMALL_SCALES = [F(1), F(1, 10), F(1, 100), F(1, 1000), F(1, 10 ** 4), F(3, 10 ** 5)]
+
+
+@test("triangulation.simplex_volume_in_embedding[small scales]")
+class T_sve_scales:
+    """The same shapes at length scales 1 .. 3e-5 (k-volumes down to ~1e-20): the
+    exact Gram oracle with a purely RELATIVE tolerance, and homogeneity
+    vol(sV) = s^k vol(V).  Near-zero decisions are made in exact mode (the code's
+    absolute 1e-15 tolerance may only zero NEGATIVE squared volumes)."""
+
+    @staticmethod
+    def gen(rng, k):
+        combos = [(n, kk) for n in (3, 4, 5) for kk in range(1, n + 1)]
+        n, kk = combos[k % len(combos)]
+        P = nondeg_simplex(rng, kk, KINDS[(k // len(combos)) % 3], emb=n)
+        return P and {"P": P, "perm": rng.sample(range(kk + 1), kk + 1)}
+
+    @staticmethod
+    def check(mods, a):
+        P, perm = a["P"], a["perm"]
+        k = len(P) - 1
+        f = mods["triangulation"].simplex_volume_in_embedding
+        base = None
+        for s in SMALL_SCALES:
+            Q = [[s * x for x in p] for p in P]
+            want2 = gram_vol2(Q)                 # > 0: the shape is non-degenerate
+            for tag, V in (("", Q), (" relabelled", [Q[i] for i in perm])):
+                with trace.exact_mode(mods):
+                    g = f(V)
+                if not sq_close(g, want2, 1e-10, 0.0) or g == 0:
+                    return (f"exact run: scale {float(s):g}{tag}: volume = {float(g)!r} but sqrt(Gram determinant)/{k}! = "
+                            f"{math.sqrt(want2)!r} (exact squared volume {want2} > 0)")
+                g = f(fl(V))
+                if not sq_close(g, want2, 1e-8, 0.0) or g == 0:
+                    return (f"float run: scale {float(s):g}{tag}: volume = {float(g)!r} but sqrt(Gram determinant)/{k}! = "
+                            f"{math.sqrt(want2)!r}")
+            if base is None:
+                base = float(g)
+            elif not close(g, float(s) ** k * base, 1e-7, 0.0):
+                return (f"float run: not homogeneous of degree {k}: vol({float(s):g} V) = {float(g)!r}, "
+                        f"{float(s):g}^{k} vol(V) = {float(s) ** k * base!r}")
+        return None
+
+
 # ---- learner1D ------------------------------------------------------------
 def _xs(rng, n, kind):
     xs = sorted({rq(rng, kind) for _ in range(n + 3)})
@@ -879,6 +923,58 @@ class T_l2:
             if not sq_close(ms[t], gram_vol2(lifted), 1e-8, 1e-12):
                 return (f"minimize_triangle_surface_loss[{t}]^2 = {ms[t] ** 2!r}, squared area of the lifted triangle = "
                         f"{float(gram_vol2(lifted))!r}")
+        return None
+
+
+@test("learner2D.choose_point_in_triangle/default_loss")
+class T_l2_choose:
+    @staticmethod
+    def gen(rng, k):
+        kind = KINDS[k % 3]
+        P = nondeg_simplex(rng, 2, kind, near_degenerate=(k // 3) % 3 == 2)
+        if P is None:
+            return None
+        # the function uses the SIGNED area (a clockwise triangle has negative badness and always gets its
+        # centroid); Learner2D feeds it scipy Delaunay simplices, which are counter-clockwise: test those
+        if simplex_det(P, rel_last=False) < 0:
+            P = [P[0], P[2], P[1]]
+        return {"P": P, "max_badness": [1, 2, 5, 10, 50][(k // 9) % 5]}
+
+    @staticmethod
+    def check(mods, a):
+        P, mb = a["P"], a["max_badness"]
+        L2 = mods["learner2D"]
+        area = tri_area_exact(*P)
+        e2 = {(i, j): vdot(vsub(P[i], P[j]), vsub(P[i], P[j])) for i, j in ((0, 1), (0, 2), (1, 2))}
+        mx = max(e2.values())
+        badness = float(mx) / float(area) * (math.sqrt(3) / 4)
+        if abs(badness - mb) < 1e-6 * mb:
+            return "skip"
+        if badness > mb:
+            cands = [[(P[i][t] + P[j][t]) / 2 for t in range(2)] for (i, j), v in e2.items() if v >= mx * (1 - F(1, 10 ** 9))]
+            what = f"mid-point of a longest edge (badness {badness:.4g} > {mb})"
+        else:
+            cands = [[sum(p[t] for p in P) / 3 for t in range(2)]]
+            what = f"centroid (badness {badness:.4g} <= {mb})"
+        g = L2.choose_point_in_triangle(np.array(fl(P)), mb)
+        scale = float(max(max(abs(x) for p in P for x in p), 1))
+        if not any(all(close(u, v, 1e-9, 1e-10 * scale) for u, v in zip(g, c)) for c in cands):
+            return f"choose_point_in_triangle = {[float(x) for x in g]}, expected the {what} = {[[float(x) for x in c] for c in cands]}"
+        # default_loss = sum of deviations * sqrt(area) + 0.3 * area, per triangle (deviations taken from the module)
+        from scipy.interpolate import LinearNDInterpolator
+        pts = fl(P) + [[float(sum(p[0] for p in P) / 3), float(sum(p[1] for p in P) / 3)]]
+        vals = [math.sin(x) + y * y / (1 + scale) for x, y in pts]
+        try:
+            ip = LinearNDInterpolator(np.array(pts), np.array(vals))
+        except Exception:  # noqa: BLE001
+            return None
+        ls = L2.default_loss(ip)
+        A = [tri_area_exact(*[[F(c) for c in pts[i]] for i in sx]) for sx in ip.tri.simplices]
+        dev = np.sum(L2.deviations(ip), axis=0)
+        for t in range(len(A)):
+            w = dev[t] * math.sqrt(A[t]) + 0.3 * float(A[t])
+            if not close(ls[t], w, 1e-9, 1e-12):
+                return f"default_loss[{t}] = {ls[t]!r}, deviation*sqrt(area) + 0.3*area = {w!r}"
         return None
 
 
